@@ -69,6 +69,8 @@ type Sched struct {
 	// pre-emption point behind a completed channel send (see postSend)
 	postInit, postOn bool
 	PostSendYields   uint64
+	atomInit, atomOn bool
+	AtomicYields     uint64
 	// thread-stall fault (off unless StallBudget > 0): at a pre-emption point, with probability
 	// 1/StallDen, the task sleeps 1..StallMaxMs simulated milliseconds
 	StallBudget int
